@@ -439,4 +439,21 @@ example : route [⟨[91, 58, 58, 93, 58, 56, 48, 56, 48], false, []⟩] ⟨[122]
 example : route [⟨[91, 58, 58, 49, 93], false, []⟩] ⟨[91, 58, 58, 49, 93, 58, 50, 48, 49, 53], [47], 1⟩ = .site 0 [47] := by decide
 
 
+/-! ### sequences of lookups through one routing table (stream c01.seq) -/
+
+/-- Routing is a function of the sites and the request: for EVERY trie and EVERY sequence of lookups, the
+k-th answer is what that lookup gets on its own, whatever came before it, misses included. -/
+theorem C01_lookups_history_independent (t : Trie) (pre qs : List Bytes) (q : Bytes) :
+    (lookups t (pre ++ q :: qs))[pre.length]? = some (t.match_ q) := by
+  simp [lookups]
+
+/-- the judge of c01.seq accepts every model answer, for every rendering of the answers -/
+theorem C01_seq_model_verdict_ok (t : Trie) (qs : List Bytes) (render : Option Val → String) :
+    seqVerdict ((lookups t qs).map render) (qs.map (fun q => render (t.match_ q))) = "ok" := by
+  simp [seqVerdict, lookups]
+
+/-- non-vacuity: a path miss followed by a hit on the same host — the shape of the seeded regression -/
+example : seqVerdict ["-", "0:2f617070"] ["-", "0:2f617070"] = "ok" := by decide
+example : seqVerdict ["-", "-"] ["-", "0:2f617070"] ≠ "ok" := by decide
+
 end Casket.Props.C01
